@@ -41,6 +41,9 @@ Lemma omap_Forall2 {A B} (g : A -> outcome B) l r :
   Forall2 (fun x y => g x = Ok y) l r -> omap g l = Ok r.
 Proof. induction 1 as [|x y l r H _ IH]; cbn [omap]; auto. now rewrite H, IH. Qed.
 
+Lemma Forall2_len {A B} (R : A -> B -> Prop) l r : Forall2 R l r -> length l = length r.
+Proof. induction 1; cbn; auto. Qed.
+
 Lemma omap_map {A B C} (g : B -> outcome C) (h : A -> B) l : omap g (map h l) = omap (fun x => g (h x)) l.
 Proof. induction l; cbn [omap map]; auto. now rewrite IHl. Qed.
 
@@ -111,7 +114,7 @@ Lemma decode_8888_ok qs cs : Forall (fun q => 0 <= q < 2 ^ 32) qs -> Forall2 (fu
 Proof.
   intros R H. unfold decode_bytes.
   assert (L : Forall (fun c : list Z => length c = 4%nat) (map (le_bytes 4) qs)).
-  { clear. induction qs; cbn [map]; constructor; auto. apply le_bytes_length. }
+  { clear. induction qs; cbn [map]; constructor; auto. }
   change (bpp_nat T Argb8888) with 4%nat. cbn [Nat.eqb].
   rewrite (length_concat_const 4 _ L), map_length.
   replace (Nat.modulo (4 * length qs) 4) with O by (symmetry; rewrite Nat.mul_comm; apply Nat.mod_mul; lia).
@@ -138,14 +141,17 @@ Qed.
 Lemma bpp_pos f : (0 < bpp_nat T f)%nat.
 Proof. destruct f; vm_compute; lia. Qed.
 
-Lemma Forall_rows_ok n k bs : bytes_ok bs -> length bs = (n * k)%nat -> Forall (chunk_ok n) (rows_of n k bs).
+Lemma Forall_firstn {A} (P : A -> Prop) n : forall l, Forall P l -> Forall P (firstn n l).
+Proof. induction n; intros l H; cbn [firstn]; [constructor|]. destruct H; constructor; auto. Qed.
+
+Lemma Forall_skipn {A} (P : A -> Prop) n : forall l, Forall P l -> Forall P (skipn n l).
+Proof. induction n; intros l H; cbn [skipn]; auto. destruct H; auto. Qed.
+
+Lemma Forall_rows_ok n k : forall bs, bytes_ok bs -> length bs = (n * k)%nat -> Forall (chunk_ok n) (rows_of n k bs).
 Proof.
-  revert bs. induction k as [|k IH]; intros bs Hb Hl; cbn [rows_of]; constructor.
-  - split. { rewrite firstn_length. lia. }
-    unfold bytes_ok in *. rewrite Forall_forall in *. intros x Hx. apply Hb. eapply In_firstn; eauto. (* firstn subset *)
-  - apply IH.
-    + unfold bytes_ok in *. rewrite Forall_forall in *. intros x Hx. apply Hb. eapply In_skipn; eauto.
-    + rewrite skipn_length. lia.
+  induction k as [|k IH]; intros bs Hb Hl; cbn [rows_of]; constructor.
+  - split. { rewrite firstn_length. lia. } apply Forall_firstn. exact Hb.
+  - apply IH. { apply Forall_skipn. exact Hb. } rewrite skipn_length. lia.
 Qed.
 
 (* the texture-level statement: both directions of ColorFormat::transcode_*_argb_8888 *)
@@ -159,8 +165,8 @@ Proof.
     destruct (rows_of_spec n k bs Hl) as (R1 & R2 & R3).
     pose proof (Forall_rows_ok n k bs Hb Hl) as Hc.
     destruct (trip_lists f (rows_of n k bs) Hf Hc) as (cs & qs & A & B & C & D & E).
-    assert (Lcs : length cs = k) by (rewrite <- (Forall2_length A); exact R3).
-    assert (Lqs : length qs = k) by (rewrite <- (Forall2_length B); exact Lcs).
+    assert (Lcs : length cs = k) by (rewrite <- (Forall2_len _ _ _ A); exact R3).
+    assert (Lqs : length qs = k) by (rewrite <- (Forall2_len _ _ _ B); exact Lcs).
     exists (concat (map (le_bytes 4) qs)).
     assert (Dec : decode_bytes T f bs = Ok cs).
     { unfold decode_bytes. fold n.
@@ -173,7 +179,7 @@ Proof.
       destruct f; try congruence; rewrite Dec; cbn [obind]; apply encode_8888_ok; exact B.
     + rewrite (length_concat_const 4).
       * now rewrite map_length, Lqs.
-      * clear. induction qs; cbn [map]; constructor; auto. apply le_bytes_length.
+      * clear. induction qs; cbn [map]; constructor; auto.
     + unfold from_argb. change (pt_transcoders T) with true. cbn [negb].
       destruct f; try congruence; rewrite (decode_8888_ok qs cs C D); cbn [obind];
         rewrite (encode_back_ok _ cs _ Hc E); now rewrite R1.
@@ -284,8 +290,8 @@ Section Png.
     destruct (produce_image_ok f t ox oy Hv) as (argb & rows & Hp & Lr & Wr & Hargb & Hto & Hfrom).
     destruct Hv as (Hf & Hb & Hl).
     eexists. split; [exact Hp|].
-    unfold compile_textures, apply_sources, finalize. cbn [fold_left apply_source map update_from_dir we_path lookup_file].
-    rewrite Nat.eqb_refl. cbn [omap we_specs we_loaded].
+    unfold compile_textures, apply_sources, finalize. cbn [fold_left apply_source map].
+    unfold update_from_dir. cbn [we_path lookup_file]. rewrite Nat.eqb_refl. cbn [omap we_specs we_path].
     unfold finalize_entry. cbn [we_specs we_loaded].
     unfold load_img. rewrite png_lossless.
     cbn [s_ox s_oy s_w s_h s_fmt s_has iw ih image_map irows].
@@ -315,3 +321,37 @@ Section Png.
       destruct t; cbn in *. subst. reflexivity.
   Qed.
 End Png.
+
+(* ------------------------------------------------------------------------------------------ *)
+(* the per-pixel statements in the form used by Props/C17.v *)
+
+Lemma rgb565_lossless p : 0 <= p < 2 ^ 16 -> (do c <- dec565 T p; enc565 T c) = Ok p.
+Proof. intros H. destruct (good_565 p H) as (c & q & A & B & _). cbn [dec_px enc_px] in A, B. now rewrite A. Qed.
+
+Lemma argb4444_lossless p : 0 <= p < 2 ^ 16 -> (do c <- dec4444 T p; enc4444 T c) = Ok p.
+Proof. intros H. destruct (good_4444 p H) as (c & q & A & B & _). cbn [dec_px enc_px] in A, B. now rewrite A. Qed.
+
+Lemma gray8_lossless g : 0 <= g < 2 ^ 8 -> (do c <- decG T g; encG T c) = Ok g.
+Proof. intros H. destruct (good_gray g H) as (c & q & A & B & _). cbn [dec_px enc_px] in A, B. now rewrite A. Qed.
+
+Lemma argb8888_lossless_do p : 0 <= p < 2 ^ 32 -> (do c <- dec8888 T p; enc8888 T c) = Ok p.
+Proof. intros H. destruct (argb8888_lossless p H) as (c & A & B & _). now rewrite A. Qed.
+
+Lemma through_png_lossless f p : 0 <= p < 256 ^ pt_bpp T f ->
+  (do c <- dec_px T f p; do q <- enc8888 T c; do c' <- dec8888 T q; enc_px T f c') = Ok p.
+Proof.
+  intros H. destruct f.
+  - destruct (argb8888_lossless p H) as (c & A & B & _). cbn [dec_px enc_px]. rewrite A. cbn [obind]. rewrite B. cbn [obind]. now rewrite A.
+  - destruct (good_565 p H) as (c & q & A & B & C & _ & D). rewrite A. cbn [obind]. rewrite C. cbn [obind]. now rewrite D.
+  - destruct (good_4444 p H) as (c & q & A & B & C & _ & D). rewrite A. cbn [obind]. rewrite C. cbn [obind]. now rewrite D.
+  - destruct (good_gray p H) as (c & q & A & B & C & _ & D). rewrite A. cbn [obind]. rewrite C. cbn [obind]. now rewrite D.
+Qed.
+
+Lemma transcode_lossless_do f bs : bytes_ok bs -> (Nat.modulo (length bs) (bpp_nat T f) = 0)%nat ->
+  (do a <- to_argb T f bs; from_argb T f a) = Ok bs.
+Proof.
+  intros Hb Hm. pose proof (bpp_pos f) as Hn.
+  destruct (transcode_lossless f bs (Nat.div (length bs) (bpp_nat T f)) Hb) as (a & A & _ & B).
+  - pose proof (Nat.div_mod (length bs) (bpp_nat T f)). lia.
+  - now rewrite A.
+Qed.
